@@ -65,6 +65,25 @@ PROPS = {
                            'increase_to_alignment', 'lemma_round8_bv', 'lemma_round8_props'])],
         k_quick=[], k_thorough=[],
     ),
+    'C05': dict(
+        v=[('u_mb2_dstlen', ['*Tag::dst_len', '*_BASE_SIZE', 'DynSizedStructure::dst_len', 'MaybeDynSized::payload', 'MaybeDynSized::as_bytes'])],
+        k_quick=[], k_thorough=[],
+    ),
+    'C15': dict(
+        v=[('u_mb2_dstlen', ['DynSizedStructure::cast', '*Tag::dst_len', 'DynSizedStructure::dst_len', 'MaybeDynSized::header', 'MaybeDynSized::as_bytes'])],
+        k_quick=[], k_thorough=[],
+    ),
+    'C18': dict(
+        v=[('u_mb2_efi', ['EFIMemoryAreaIter::new', 'EFIMemoryAreaIter::next', 'EFIMemoryAreaIter::len', 'EFIMemoryMapTag::memory_areas',
+                          'EFIMemoryMapTag::dst_len', 'EFIMEMORYMAPTAG_BASE_SIZE', 'lemma_div_exact', 'lemma_efi_index'])],
+        k_quick=[], k_thorough=[],
+    ),
+    'C19': dict(
+        v=[('u_mb2_elf', ['ElfSectionsTag::sections', 'elf::ElfSectionIter::next', 'elf::ElfSection::get', 'elf::ElfSection::section_type',
+                          'elf::ElfSection::section_type_raw', 'elf::ElfSectionInner32::typ', 'elf::ElfSectionInner64::typ',
+                          'ElfSectionsTag::dst_len', 'ELFSECTIONSTAG_BASE_SIZE', 'elf::lemma_elf_bounds', 'elf_arith::lemma_span_*'])],
+        k_quick=[], k_thorough=[],
+    ),
     'C20': dict(
         v=[('u_tagtype', ['TagType::from', 'impl&%*::from', 'lemma_tagtype_roundtrip', 'lemma_tagtype_injective', 'tagtype_roundtrip_exec'])],
         k_quick=['k_tagtype_roundtrip_all_u32', 'k_tagtype_id_wrapper_commutes', 'k_tagtype_equalities_agree', 'k_tagtype_custom_noncanonical', 'k_mbi_magic'],
